@@ -238,7 +238,8 @@ namespace sqf::runtime
         sqf::runtime::instruction_set::iterator peek() const { bool flag; return peek(flag); }
         sqf::runtime::instruction_set::iterator peek(bool& success) const
         {
-            auto pos = m_position >= m_instruction_set.size() ? m_instruction_set.size() - 1 : m_position + 1;
+            // The instruction the next step executes: the first one while the scope has not started yet, none at its end
+            auto pos = m_position == position_invalid ? 0 : m_position >= m_instruction_set.size() ? m_instruction_set.size() : m_position + 1;
             auto it = m_instruction_set.begin() + pos;
             success = it != m_instruction_set.end();
             return it;
